@@ -48,7 +48,7 @@ def witness_sources():
         'anon-struct-literal-arg': main('    let v: int = (f1 { x: 1, y: 2 })\n    (println v)', 'struct Point {\n    x: int,\n    y: int\n}\n' + F1),
         # reviewer's program: a string literal for an int parameter inside println -- the same diagnostic site as call-arg-type-unchecked,
         # here the VM then stops with a run-time type error and cc refuses the C text
-        'call-arg-type-unchecked:string-for-int': main('    (println (f1 "a"))'),
+        'call-arg-type-unchecked:string-for-int': main('    (println (f "a"))', 'fn f(v: int) -> int {\n    return (+ v 1)\n}\nshadow f { assert (== (f 1) 2) }\n'),
         # a user function named like the builtin `exit`: diagnostic printed, then the type checker dereferences NULL (SIGSEGV in all tools)
         'redefine-builtin-exit-crash': 'fn exit(v: int) -> int {\n    return (+ v 1)\n}\nshadow exit { assert (== (exit 1) 2) }\n'
                                        'fn main() -> int {\n    (println (exit 2))\n    return 0\n}\nshadow main { assert true }\n',
